@@ -134,6 +134,10 @@ func (c *Authority) VerifyQuorumCert(qc hotstuff.QuorumCert) error {
 	if !ok {
 		return fmt.Errorf("block not found: %v", qc.BlockHash())
 	}
+	// the view is not covered by the signature, so it must be the view of the certified block.
+	if qc.View() != block.View() {
+		return fmt.Errorf("quorum certificate view %d does not match the view %d of its block", qc.View(), block.View())
+	}
 	return c.Verify(qc.Signature(), block.ToBytes())
 }
 
